@@ -16,6 +16,8 @@ CMP_ORDERING = ['Less', 'Equal', 'Greater']          # discriminants -1, 0, 1
 ATOMIC_ORDERING = ['Relaxed', 'Release', 'Acquire', 'AcqRel', 'SeqCst']
 
 MODELS = []          # (compiled regex, fn, name)
+# constants of external crates the dump only names: last path segment -> (pattern the path must match, value)
+EXTERNAL_CONSTS = {'MAGICNUMBER': (r'zstd', 0xFD2FB528), 'CLEVEL_DEFAULT': (r'zstd', 3)}
 
 
 def model(pat, front=False):
@@ -55,6 +57,7 @@ class Engine:
         self.call_stack = []
         self.log = log
         self.summary_mode = None
+        self.fn_stubs = []                        # (compiled regex on the crate function name, fn(engine, args), label)
         from .models import iters as _it
         _it._ENGINE[0] = self
         self._index()
@@ -374,6 +377,8 @@ class Engine:
             return -(1 << (w - 1)) if signed else 0
         ev = self.enum_variant(c)
         if ev: return Enum(ev[0], ev[1], [])
+        ext = EXTERNAL_CONSTS.get(strip_generics(c).split('::')[-1]) if '::' in c else None
+        if ext is not None and re.search(ext[0], c): return ext[1]
         # function item or other path
         return FnItem(c)
 
@@ -702,6 +707,11 @@ class Engine:
             self.models_used[r[2]] += 1
             return r[1](self, callee, args)
         if r[0] == 'func':
+            for pat, fn, label in self.fn_stubs:
+                if pat.search(r[1].name):
+                    # a harness stand-in for a crate function (listed in the evidence of the check using it)
+                    self.models_used['stub:' + label] += 1
+                    return fn(self, args)
             if args:
                 recv = un(args[0])
                 meth = r[1].name.split('::')[-1]
